@@ -97,7 +97,16 @@ fn fallback_style(model: &Model, sheet: u32, row: i32, col: i32) -> Style {
 }
 
 /// One cell as observed through the getters.
+/// A getter of the engine that panics on a cell (e.g. a cell pointing at a formula that does not exist) is
+/// data, not the end of the run: the cell is projected as such and the structural check (C27) names the cause.
 pub fn cell_json(um: &UserModel, sheet: u32, row: i32, col: i32) -> Value {
+    match std::panic::catch_unwind(std::panic::AssertUnwindSafe(|| cell_json_inner(um, sheet, row, col))) {
+        Ok(v) => v,
+        Err(_) => json!({"r": row, "c": col, "content": "<getter panicked>", "t": "?", "v": null, "fmt": "<getter panicked>", "style": null, "arr": null}),
+    }
+}
+
+fn cell_json_inner(um: &UserModel, sheet: u32, row: i32, col: i32) -> Value {
     let model = um.get_model();
     let content = model
         .get_localized_cell_content(sheet, row, col)
